@@ -202,7 +202,13 @@ def finish(ctx, explanation, trusted_extra=(), assumptions=()):
         'wall_s': round(time.time() - ctx.t0, 3),
         'violations': len(new_viol),
     }
-    ev['coverage'].update(ctx.info)
+    # schema-reserved coverage keys keep their types: a rule module's extra key that collides is stored under <key>_info
+    RESERVED_INT = ('evaluations', 'distinct_nontrivial', 'states', 'transitions', 'traces_validated_against_impl', 'obligations', 'discharged', 'disagreements_checked')
+    for k_, v_ in ctx.info.items():
+        if (k_ in RESERVED_INT and not isinstance(v_, int)) or k_ in ('rule', 'samples', 'checker_cmd', 'trusted_base', 'programs', 'explanation', 'exhaustive'):
+            ev['coverage'][k_ + '_info'] = v_
+        else:
+            ev['coverage'][k_] = v_
     evdir = os.environ.get('ASL_EVIDENCE_DIR') or os.path.join(VERIF, 'evidence')   # overridden only by bin/try_patch.sh (scratch trees)
     os.makedirs(evdir, exist_ok=True)
     json.dump(ev, open(os.path.join(evdir, ctx.prop + '.json'), 'w'), indent=1)
